@@ -466,15 +466,26 @@ func checkInvert(e *Env, p *load.Program) {
 	detail := "shape not recognised"
 	if ok {
 		u := upd[0]
-		// key must be extract #2 (value) of next(range), value extract #1 (key)
-		kx, ok1 := u.Key.(*ssa.Extract)
-		vx, ok2 := u.Value.(*ssa.Extract)
-		ok = ok1 && ok2 && u.Map == mk && kx.Index == 2 && vx.Index == 1
-		if ok {
-			n1, _ := kx.Tuple.(*ssa.Next)
-			n2, _ := vx.Tuple.(*ssa.Next)
-			ok = n1 != nil && n1 == n2 && n1.Iter == rng
+		// the stored key must be the iteration's value (the range statement's value variable, or the parameter looked up
+		// at the iteration's key), the stored value the iteration's key
+		var nx *ssa.Next
+		for _, ref := range *rng.Referrers() {
+			if n, isN := ref.(*ssa.Next); isN {
+				nx = n
+			}
 		}
+		isKey := func(v ssa.Value) bool {
+			ex, isx := v.(*ssa.Extract)
+			return isx && ex.Index == 1 && nx != nil && ex.Tuple == ssa.Value(nx)
+		}
+		isVal := func(v ssa.Value) bool {
+			if ex, isx := v.(*ssa.Extract); isx {
+				return ex.Index == 2 && nx != nil && ex.Tuple == ssa.Value(nx)
+			}
+			lk, isl := v.(*ssa.Lookup)
+			return isl && !lk.CommaOk && lk.X == ssa.Value(fn.Params[0]) && isKey(lk.Index)
+		}
+		ok = u.Map == ssa.Value(mk) && isVal(u.Key) && isKey(u.Value)
 		if !ok {
 			detail = "the map update is not out[value] = key of the ranged pair"
 		}
